@@ -7,10 +7,10 @@ COQ_TARGETS = ['Props/C14.vo', 'Run/RunC14.vo']
 PROPS_MODULE = 'Props.C14'
 THEOREMS = ['sixel_rect', 'raster_declares_height', 'declared_height_kept', 'poll_never_blocks', 'arrival_order',
             'never_twice', 'screen_in_arrival_order', 'screen_is_spec', 'complete_spec', 'schedule_independent',
-            'deliver_shadow']
+            'deliver_shadow', 'sixel_dims_bounded', 'max_dim_tied']
 SWEEP_LEMMAS = []
 TRUSTED = ['Coq 8.16.1 kernel + vm_compute (model evaluation); no axioms (Print Assumptions: closed)',
-           'translator/gen_sixel.py (DOS_DEFAULT_PALETTE extraction, token pin of parse_next_number)',
+           'translator/gen_sixel.py (DOS_DEFAULT_PALETTE extraction, token pin of parse_next_number, MAX_SIXEL_DIMENSION and the three places of src/sixel_mod.rs that apply it)',
            'runtime facts assumed by Model/SixelQueue.v: VecDeque is FIFO; JoinHandle::is_finished() implies join() returns at once with the closure result',
            'harness/src/c14.rs incl. the cfg(icy_engine_verif) gate in Sixel::parse_from (src/verif_hooks.rs)',
            'Palette::set_color_hsl (f32 arithmetic) is a parameter of the model: the rectangle theorems hold for every behaviour of it']
@@ -19,11 +19,18 @@ UNMODELLED = ['real thread timing: only the gated schedules are exhibited agains
               'HSL colour values (only the shape of HSL payloads is compared)']
 ASSUMPTIONS = ['a decode result is a function of its payload only (outcome_of)', 'font cell is what Buffer::get_font_dimensions returns (8x16 default)']
 RULE = ('sixel payloads built from a token grammar (data chars, !n repeats <= 500, $, -, #select, #define rgb/hsl, raster headers with 2/3/4 numbers '
-        'declaring sizes smaller/equal/larger than the data, occasional invalid or non-ASCII characters); queue schedules: k images with nested/overlapping '
+        'declaring sizes smaller/equal/larger than the data, occasional invalid or non-ASCII characters; repeat counts / raster sizes / cursor rows at, just below and '
+        'far beyond MAX_SIXEL_DIMENSION = 4096); queue schedules: k images with nested/overlapping '
         'rectangles incl. failing and panicking decodes, all k! completion orders x all placements of polls between completions (k<=3 quick, k<=4 thorough) '
         'plus random interleavings of arrivals; non-trivial = payload decodes to an image with at least one pixel row, or schedule with >= 2 images')
 
 DATA = [chr(c) for c in range(63, 127)]
+MAXD = 4096          # src/sixel_mod.rs MAX_SIXEL_DIMENSION (Gen/SixelGen.v carries the extracted value; Props/C14.v max_dim_tied)
+# payloads around the size limit that are cheap for the list model (no wide pixel rows): refused ones and the largest accepted ones
+LIMIT_PAYLOADS = ['!%d~' % (MAXD + 1), '!%d?' % MAXD, '!%d?~' % MAXD, '!%d$~' % MAXD, '!%d$' % (MAXD + 1), '"1;1;%d;1~' % (MAXD + 1), '"1;1;1;%d~' % (MAXD + 1),
+                  '"1;1;2;%d~' % MAXD, '"1;1;%d~' % MAXD, '"1;1;%d~' % (MAXD + 1), '!%d-~' % MAXD, '!%d-~' % (MAXD // 6 + 1), '!%d-~' % (MAXD // 6), '!%d-~' % (MAXD // 6 - 1),
+                  '"1;1;1;%d!%d-~' % (MAXD, MAXD // 6), '"1;1;1;%d!%d-~' % (MAXD, MAXD), '!2147483647~', '!2147483647-', '"1;1;99999;99999~', '"1;1;2147483647;2147483647~',
+                  '"1;1;2147483647~', '!%d?!%d?~' % (MAXD - 1, 1), '!%d?!%d?~' % (MAXD - 1, 2)]
 
 def gen_payload(rng, allow_hsl=False):
     toks = []
@@ -34,10 +41,14 @@ def gen_payload(rng, allow_hsl=False):
         nums = [a, b] + [rng.choice([0, 1, 2, 3, 5, 6, 7, 12, 13, 20]) for _ in range(k - 2)]
         toks.append('"' + ';'.join(map(str, nums)))
     n = rng.choice([0, 1, 2, 3, 5, 8, 12, 20])
+    n_big = 0            # at most one repeat group near / beyond the limit per payload (the list model walks every repetition)
     for _ in range(n):
         r = rng.random()
         if r < 0.50: toks.append(rng.choice(DATA))
-        elif r < 0.60: toks.append('!%d%s' % (rng.choice([0, 1, 2, 3, 7, 30, 100, 500]), rng.choice(DATA + ['-', '$'])))
+        elif r < 0.59: toks.append('!%d%s' % (rng.choice([0, 1, 2, 3, 7, 30, 100, 500]), rng.choice(DATA + ['-', '$'])))
+        elif r < 0.60:
+            big = rng.choice([MAXD - 1, MAXD, MAXD + 1, 65536, 2147483647])      # accepted counts only with characters that draw nothing (the list model walks every repetition)
+            toks.append('!%d%s' % (big, rng.choice(['?', '-', '$', '~'] if big > MAXD else ['?', '-', '$'])) if n_big < 1 else '-'); n_big += 1
         elif r < 0.70: toks.append('-')
         elif r < 0.76: toks.append('$')
         elif r < 0.84: toks.append('#%d' % rng.choice([0, 1, 2, 5, 15, 16, 17, 40]))
@@ -157,7 +168,7 @@ def make_schedules(ctx, quick_k, thorough_k, n_random):
 
 def correspondence(ctx):
     pay = [gen_payload(ctx.rng) for _ in range(ctx.n(250, 6000))]
-    pay += ['~-~~', '"1;1;3;7~~~~-~-~', '', '!', '"1;1', '#1;2;99999999;0;0~', '"1;1;0;0~', '!500~-!3-~']
+    pay += ['~-~~', '"1;1;3;7~~~~-~-~', '', '!', '"1;1', '#1;2;99999999;0;0~', '"1;1;0;0~', '!500~-!3-~'] + LIMIT_PAYLOADS
     shape = [gen_payload(ctx.rng, allow_hsl=True) for _ in range(ctx.n(60, 1500))]
     sched = make_schedules(ctx, 3, 4, ctx.n(40, 600))
     if not (ctx.thorough or ctx.escalated):
@@ -192,7 +203,9 @@ def declared_height(p):
     return int(nums[-1])
 
 def search(ctx, broken):
-    pay = ['~-~~', '~~-~', '"1;1;3;7~~~~-~-~', '"1;1;9;2~-~-~', '-~', '!3~-!5~-~']
+    pay = ['~-~~', '~~-~', '"1;1;3;7~~~~-~-~', '"1;1;9;2~-~-~', '-~', '!3~-!5~-~'] + LIMIT_PAYLOADS + \
+          ['!%d~' % MAXD, '!%d~~' % MAXD, '!%d~-~' % MAXD, '"1;1;%d;3~' % MAXD, '"1;1;%d;3!%d~' % (MAXD, MAXD), '"1;1;%d;%d~' % (MAXD + 1, MAXD), '"1;1;%d;%d~' % (MAXD, MAXD + 1)]
+    # (the full 4096 x 4096 image is 64 MiB: the harness of this check prints every byte; stage S of C03 measures it)
     for b in broken:
         d = b.get('detail') or {}
         c = str(d.get('case', '')) if isinstance(d, dict) else ''
@@ -209,6 +222,8 @@ def search(ctx, broken):
         if r[0] == 'ok' and r[1][0] == 0:
             _, w, h, ln = r[1][:4]
             if h > 0: nontriv.add(p)
+            if w > MAXD or h > MAXD:
+                failures.append({'signature': 'sixel-dims-beyond-limit', 'input': c, 'impl': r[1][:4], 'detail': 'payload %r: image %d x %d, limit %d (sixel_dims_bounded)' % (p, w, h, MAXD)})
             if ln != 4 * w * h or len(r[1]) - 4 != ln:
                 failures.append({'signature': 'sixel-not-rectangle', 'input': c, 'impl': r[1][:4], 'detail': 'payload %r: width %d height %d but %d bytes' % (p, w, h, ln)})
             dh = declared_height(p)
@@ -257,7 +272,8 @@ def replay(ctx, body):
 
 LEVEL_TEXT = ('Machine-checked proof (Coq, closed under the global context). (a) Model of SixelParser (every state, raster header, repeat, '
               'colour definition incl. overflow panics, ragged row growth) and theorem sixel_rect: every successfully decoded image holds exactly '
-              '4*width*height bytes, for every payload of any length; a declared raster height is kept whatever data follows. (b) Transition-system model of '
+              '4*width*height bytes, for every payload of any length; a declared raster height is kept whatever data follows; after the size-limit fix width and height are at most '
+              'MAX_SIXEL_DIMENSION = 4096 (sixel_dims_bounded; the constant is read from the source). (b) Transition-system model of '
               'the decode queue (execute_dcs push_back, update_sixel_threads) and theorems over EVERY sequence of arrivals, completions in any order and polls: '
               'poll never joins an unfinished decode, popped++queued = arrivals (no loss, no duplicate, arrival order), screen = arrival-order spec, '
               'final screen independent of the schedule, shadow removal exact. Partial only in that real OS-thread timing is exhibited just for the gated schedules '
